@@ -239,7 +239,12 @@ RecvMsg(a, h, mode, entry) ==
                              THEN "held" ELSE rcv[c2]]
               /\ Logged([op |-> entry, a |-> a, h |-> h.id, mode |-> mode, res |-> "msg",
                          tag |-> msg.tag, big |-> msg.big,
-                         slots |-> [i \in 1..Len(ids) |-> [k |-> msg.slots[i].k, h |-> ids[i]]]])
+                         \* a received region is compared with the bytes it was created with at once (C05): the
+                         \* log carries its length token and fill token
+                         slots |-> [i \in 1..Len(ids) |->
+                                      [k |-> msg.slots[i].k, h |-> ids[i],
+                                       len |-> IF msg.slots[i].k = "M" THEN regs[msg.slots[i].c].len ELSE 0,
+                                       tok |-> IF msg.slots[i].k = "M" THEN regs[msg.slots[i].c].tok ELSE 0]]])
       ELSE /\ UNCHANGED <<q, H, nextH, rcv>>
            /\ Logged([op |-> entry, a |-> a, h |-> h.id, mode |-> mode,
                       res |-> IF Senders(c) = 0 THEN "disc" ELSE "empty",
